@@ -16,6 +16,12 @@ func (kgraph *KVGraph) AddGraph(graph string) error {
 		return err
 	}
 
+	if !kgraph.kv.HasKey(GraphKey(graph)) {
+		// a DeleteGraph of this name may have been interrupted after it removed
+		// the graph entry: make sure nothing of the old graph is left
+		kgraph.clearGraph(graph)
+	}
+
 	kgraph.ts.Touch(graph)
 	err = kgraph.setupGraphIndex(graph)
 	if err != nil {
@@ -28,6 +34,18 @@ func (kgraph *KVGraph) AddGraph(graph string) error {
 func (kgraph *KVGraph) DeleteGraph(graph string) error {
 	kgraph.ts.Touch(graph)
 
+	// the graph entry goes first: if the deletion is interrupted, the graph is
+	// gone and what is left of its content is unreachable
+	graphKey := GraphKey(graph)
+	kgraph.kv.Delete(graphKey)
+
+	kgraph.clearGraph(graph)
+
+	return nil
+}
+
+// clearGraph removes the elements and the indices of `graph`
+func (kgraph *KVGraph) clearGraph(graph string) {
 	eprefix := EdgeListPrefix(graph)
 	kgraph.kv.DeletePrefix(eprefix)
 
@@ -40,12 +58,7 @@ func (kgraph *KVGraph) DeleteGraph(graph string) error {
 	dprefix := DstEdgeListPrefix(graph)
 	kgraph.kv.DeletePrefix(dprefix)
 
-	graphKey := GraphKey(graph)
-	kgraph.kv.Delete(graphKey)
-
 	kgraph.deleteGraphIndex(graph)
-
-	return nil
 }
 
 // Graph obtains the gdbi.DBI for a particular graph
